@@ -3,7 +3,8 @@ import json
 import os
 
 from .. import rt, stubs
-from ..engine import Harness
+from ..engine import Harness, Direct
+from . import tokfam
 from . import idxfam as F
 from . import convfam as CF
 
@@ -28,6 +29,7 @@ META = {
     "assumptions": ["tell() returns an opaque increasing cookie for the next unread line, readline() advances (DESIGN 3.2)",
                     "format detection reads the records through the GAF reader stub"],
 }
+META["explanation"] += '  Segment names are mixed (s0, s1-alt, s1.2, b#0|x: word prefixes of one another, characters outside [A-Za-z0-9_]) and every second read name carries a comment after a blank.  tokens/cli/index.py: the path tokenizers of index.py decided as languages by z3.'
 
 setup_done = []
 
@@ -70,10 +72,13 @@ def harnesses(tier):
                    "timeout": 900})
     hs.append({"id": "run/twice-different-graphs", "params": {"kind": "twice"}, "timeout": 900})
     hs.append({"id": "run/empty", "params": {"kind": "run", "form": "unstable", "gz": 0, "walks": []}, "timeout": 120})
+    hs.append(tokfam.harness("C03", "gaftools/cli/index.py"))
     return hs
 
 
 def build(params):
+    if params.get("kind") == "tokens":
+        return Direct(lambda: tokfam.run(params))
     if params["kind"] == "coord":
         args = [(a, "int") for a in CF.LAYOUT_ARGS]
         pre = list(CF.LAYOUT_PRE)
@@ -180,6 +185,8 @@ def build(params):
 
 
 def replay(params, model, wd):
+    if params.get("kind") == "tokens":
+        return tokfam.replay(params, model, wd)
     import pickle
     import gaftools.cli.index as I
     import gaftools.gfa as G
